@@ -336,3 +336,37 @@ register(
           "Non-trivial = >= 1 service call and >= 3 transitions"),
     nontrivial=lambda sc, r: sum(1 for x in r.trace if x[3] == "svc-call") >= 1 and sum(1 for x in r.trace if x[3] == "trans") >= 3,
 )
+
+
+# ===========================================================================
+# C10 - completion
+# ===========================================================================
+_C10 = dict(p_final=0.45, p_on_done=1.0, p_parallel=0.3, p_compound=0.35, p_history=0.05, p_always=0.05, p_raise=0.08,
+            p_ondone_targetless=0.4, n_states=(5, 12), p_trans=0.55, p_machine_output=0.4, p_out=0.6)
+
+
+def gen_c10(engine, salt, **kw):
+    base = gen_core(engine, salt, ops_kw={"n_lo": 5, "n_hi": 14}, **dict(_C10, **kw))
+
+    def g(seed):
+        sc = base(seed)
+        sc["post_stop"] = 200 * MS
+        return sc
+    return g
+
+
+register(
+    "C10",
+    families=[("done_sync", 3, gen_c10("sync", 61)), ("done_async", 3, gen_c10("async", 62)),
+              ("done_timers_async", 1, gen_c10("async", 63, p_after=0.3, p_invoke=0.2, svc_kinds=("coro", "sync")))],
+    oracle=O.oracle_c10,
+    stats=O.stats_c10,
+    level="exploration",
+    rule=("machines dense in final states, nested compound/parallel owners with onDone (40% targetless), regions completing in every "
+          "order, leaving final states and completing again, top-level finals with state and machine output, events after completion "
+          "and a final stop(); the configuration sequence (from entry/exit markers) gives every completion instant of every owner; "
+          "onDone must run at most once per completion, only while done, and at least once if the owner is still done at the next "
+          "quiescent observation. Non-trivial = >= 1 final state entered and >= 3 transitions"),
+    nontrivial=lambda sc, r: sum(1 for x in r.trace if x[3] == "trans") >= 3 and any(
+        x[3] == "trans" and str(x[7]).startswith("done.state.") for x in r.trace),
+)
